@@ -88,11 +88,6 @@ theorem C11_tables :
     (["", "r", "x", "W", "wa", "append-over", "aa"].all (fun m => classifyMode m == none)) = true := by
   decide
 
-/-- the four mode lists were found in the current write.py (no fallback table in use) -/
-theorem C11_translator_tie :
-    (["writeModes", "overwriteModes", "appendModes", "appendOverModes"].all (fun n => !EmdGen.unavailable.contains n)) = true := by
-  decide
-
 /-- without an emdpath the mode string is taken as given -/
 theorem C11_effective_none (mode : String) : effectiveMode mode none = mode := by
   simp [effectiveMode]
